@@ -1047,7 +1047,7 @@ Proof.
 Qed.
 
 Definition is_bufop (w : wop) : Prop :=
-  match w with WSetBuf _ _ | WMutate _ _ _ => True | _ => False end.
+  match w with WSetBuf _ _ | WMutate _ _ _ | WTestErrorf => True | _ => False end.
 
 Lemma wrun_bufops im mk : forall ws bs, Forall is_bufop ws -> wrun impl beh im mk bs ws = (mk, []).
 Proof.
@@ -1070,6 +1070,23 @@ Proof.
     eexists. split; [exact EX|].
     destruct (fold_setup_keeps (im_unroll im) s ss (new_expectation (ms_name s) (fixed ++ getbuf b bs))) as [A B0].
     split; [exact B0 | exact A].
+Qed.
+
+(* ------------------------------------------------------------------ an already failed t *)
+Definition not_terrorf (w : wop) : bool := match w with WTestErrorf => false | _ => true end.
+
+(* Whatever marks t as failed - the test's own Errorf, or another mock registered on the same t -
+   and whenever it does, every observation of this mock, its cleanup report included, is the same. *)
+Theorem failed_t_is_invisible im : forall ws mk bs,
+  wrun impl beh im mk bs ws = wrun impl beh im mk bs (filter not_terrorf ws).
+Proof.
+  induction ws as [|w ws IH]; intros mk bs; [reflexivity|].
+  destruct w as [o|mi fixed b ss|b l|b i v|]; cbn [filter not_terrorf]; cbn [wrun wnext].
+  - destruct (step impl beh im mk o) as [mk1 ob]. rewrite IH. reflexivity.
+  - destruct (step impl beh im mk (OExpect mi (fixed ++ getbuf b bs) ss)) as [mk1 ob]. rewrite IH. reflexivity.
+  - apply IH.
+  - apply IH.
+  - apply IH.
 Qed.
 
 End Proofs.
